@@ -57,6 +57,19 @@ class Layout:
                 return [f"u8({self.intexpr(x)})" for x in e.args[0].elts]
             if isinstance(f, ast.Name) and f.id == "bytes" and len(e.args) == 0:
                 return []
+            # zero fill: bytes([0] * n) | bytes(n) with an integer n | bytearray(n)
+            if isinstance(f, ast.Name) and f.id in ("bytes", "bytearray") and len(e.args) == 1 and not e.keywords:
+                a0 = e.args[0]
+                if isinstance(a0, ast.BinOp) and isinstance(a0.op, ast.Mult):
+                    lst, n = (a0.left, a0.right) if isinstance(a0.left, ast.List) else (a0.right, a0.left)
+                    if isinstance(lst, ast.List) and len(lst.elts) == 1 and isinstance(lst.elts[0], ast.Constant) and lst.elts[0].value == 0:
+                        return [f"zeros({self.intexpr(n)})"]
+                okn, nv = self._int(a0)
+                if okn:
+                    return [f"zeros({nv})"]
+                # byte reversal: bytes(reversed(x))
+                if isinstance(a0, ast.Call) and isinstance(a0.func, ast.Name) and a0.func.id == "reversed" and len(a0.args) == 1:
+                    return [f"rev({self.canon(a0.args[0])})"]
             if isinstance(f, ast.Attribute) and f.attr == "to_bytes":
                 w = _kw(e, "length", 0)
                 bo = _kw(e, "byteorder", 1)
@@ -108,6 +121,14 @@ class Layout:
                 lp = self.list_parts(e.args[0])
                 if lp is not None:
                     return lp
+        if isinstance(e, ast.BinOp) and isinstance(e.op, ast.Mult):
+            c, n = (e.left, e.right) if isinstance(e.left, ast.Constant) else (e.right, e.left)
+            if isinstance(c, ast.Constant) and c.value == b"\x00":
+                return [f"zeros({self.intexpr(n)})"]
+        if isinstance(e, ast.Subscript) and isinstance(e.slice, ast.Slice) and e.slice.lower is None and e.slice.upper is None \
+                and isinstance(e.slice.step, ast.UnaryOp) and isinstance(e.slice.step.op, ast.USub) \
+                and isinstance(e.slice.step.operand, ast.Constant) and e.slice.step.operand.value == 1:
+            return [f"rev({self.canon(e.value)})"]
         return [self.text(e)]
 
     def list_parts(self, e):
@@ -235,6 +256,10 @@ class Layout:
             if isinstance(sl, ast.Slice):
                 lo = self.intexpr(sl.lower) if sl.lower is not None else ""
                 hi = self.intexpr(sl.upper) if sl.upper is not None else ""
+                if hi == f"len({self.text(e.value)})":
+                    hi = ""      # x[a:len(x)] is x[a:]
+                if lo == "0":
+                    lo = ""
                 st = ":" + self.intexpr(sl.step) if sl.step is not None else ""
                 return f"{self.text(e.value)}[{lo}:{hi}{st}]"
             return f"{self.text(e.value)}[{self.intexpr(sl)}]"
